@@ -1,10 +1,13 @@
 #!/venv/bin/python
 """Run the checks against behaviour-preserving maintenance patches.
 
-usage: tools/benignrun.py [--dir DIR] [--own] [ids...]
+usage: tools/benignrun.py [--dir DIR] [--own] [--write-expected] [ids...]
 DIR (default /verif/regress/benign) holds <id>/patch.diff + meta.json (meta['property']).
 Each patch is applied to a scratch copy of /repo's tracked tree and *every* property's quick
 check is run on it (or only the patch's own property with --own).  Expected: exit 0 everywhere.
+--write-expected (full run only) records the outcome in DIR/EXPECTED.json: {patch id: {property: exit code}} for the
+non-zero ones; the thorough-tier audit re-checks every (patch, property) pair NOT listed there and reports the listed
+ones as known brittleness.
 """
 import json, os, subprocess, sys, tempfile, shutil
 from concurrent.futures import ThreadPoolExecutor
@@ -37,6 +40,7 @@ def main():
     if '--dir' in argv:
         i = argv.index('--dir'); base = argv[i + 1]; del argv[i:i + 2]
     own = '--own' in argv
+    write = '--write-expected' in argv
     ids = [a for a in argv if not a.startswith('--')]
     jobs = []
     for root, dirs, files in sorted(os.walk(base)):
@@ -50,6 +54,7 @@ def main():
                 prop = bid[:3]
             jobs.append((bid, f'{root}/patch.diff', prop))
     bad = 0
+    expected = {}
     with ThreadPoolExecutor(8) as ex:
         for bid, prop, res, err in ex.map(lambda j: run_one(*j, own), jobs):
             if isinstance(res, str):
@@ -59,11 +64,14 @@ def main():
                 print(f'{bid:12s} {prop} silent')
                 continue
             bad += 1
+            expected[bid] = {p: rc for p, (rc, _) in res.items()}
             for p, (rc, lines) in res.items():
                 print(f'{bid:12s} {prop} ALARM in {p} exit={rc}')
                 for ln in lines:
                     print(f'      {ln[:260]}')
     print(f'{len(jobs)} patches, {bad} with an alarm')
+    if write and not ids and not own:
+        json.dump({'patches': len(jobs), 'not_silent': expected}, open(f'{base}/EXPECTED.json', 'w'), indent=1, sort_keys=True)
     return 1 if bad else 0
 
 
